@@ -696,7 +696,7 @@ def canon(x):
             vals = [repr(v) for v in a.reshape(-1)]
         else:
             vals = [int(v) for v in a.reshape(-1)]
-        return {"dtype": str(a.dtype), "shape": list(a.shape), "vals": vals}
+        return {"dtype": str(a.dtype.newbyteorder("=")), "shape": list(a.shape), "vals": vals}
     if isinstance(x, (np.floating, float)):
         return {"f": float(x).hex()}
     if isinstance(x, (np.integer, int, np.bool_, bool)):
